@@ -137,3 +137,55 @@ Theorem c02_clean_above_negotiated_limit_v5 :
     (Client.Loop5.lrun5 (Client.Loop5.linit5 3 false) (Client.Loop5Proofs.above_limit5_history ++ [Client.Loop5.Fail5]))
   = Some ([R5Publish (mkPub5 Q1 3 3 3 None)], [], false).
 Proof. exact Client.Loop5Proofs.clean_above_negotiated_limit5. Qed.
+
+(* v5 event loop: what the client owes (owed5 = the requests the state machine holds ++ the ones carried
+   over in pending) is never dropped, along EVERY history of well-formed loop ops, except through:
+   (1) the broker's word on it in a packet of a read batch (final ack, refusing PUBREC, accepting PUBREC
+   -> the release of that id is owed instead); (2) a reconnect without session (pending.clear()); (3) it
+   is at the head of pending, is taken, and the state machine REFUSES it: consumed, error returned, gone.
+   Exit (3) is reachable for an accepted publish: finding, witness c02_alias_replay_loss_witness_v5. *)
+From Rumqtt Require Client.LoopInv5.
+
+Theorem c02_held_loop_step_v5 : forall l o l', Client.LoopInv5.LInv5 l -> Client.LoopInv5.wf_user5 o = true ->
+  Client.Loop5.lnext5 l o = Some l' ->
+  forall r, Client.LoopInv5.carried5 (s5_max_limit (Client.Loop5.st5 l)) r = true -> List.In r (Client.LoopInv5.owed5 l) ->
+  List.In r (Client.LoopInv5.owed5 l') \/
+  ((exists pk, List.In pk (Client.LoopInv5.op_pkts5 o) /\
+      (final_ack5 (Inc5 pk) r \/ refused_by_pubrec5 (Inc5 pk) r \/ released5 (Inc5 pk) r))
+   \/ (exists rm tam, o = Client.Loop5.Reconnect5 false rm tam)
+   \/ (o = Client.Loop5.TakeRequest5 /\ exists rest s' e, Client.Loop5.pending5 l = r :: rest /\
+         handle_outgoing_packet5 (Client.Loop5.st5 l) r = Err (s', e))).
+Proof. exact Client.LoopInv5.lstep5_keeps_owed. Qed.
+
+Theorem c02_held_loop_run_v5 : forall h l l', Client.LoopInv5.LInv5 l -> forallb Client.LoopInv5.wf_user5 h = true ->
+  Client.Loop5.lrun5 l h = Some l' ->
+  forall r, Client.LoopInv5.carried5 (s5_max_limit (Client.Loop5.st5 l)) r = true -> List.In r (Client.LoopInv5.owed5 l) ->
+  List.In r (Client.LoopInv5.owed5 l') \/ Client.LoopInv5.lexit5_in l h r.
+Proof. exact Client.LoopInv5.lrun5_keeps_owed. Qed.
+
+(* the loop invariant of the two statements above holds in every reachable loop state *)
+Theorem c02_loop_linv_reachable_v5 : forall h l, Client.LoopInv5.LInv5 l -> forallb Client.LoopInv5.wf_user5 h = true ->
+  Client.Loop5Proofs.k7_5 l h = false /\ exists l', Client.Loop5.lrun5 l h = Some l' /\ Client.LoopInv5.LInv5 l'.
+Proof. exact Client.LoopInv5.k7_5_never. Qed.
+
+Theorem c02_loop_linv_init_v5 : forall max manual, 1 <= max -> max <= 65535 -> Client.LoopInv5.LInv5 (Client.Loop5.linit5 max manual).
+Proof. exact Client.LoopInv5.linv5_init. Qed.
+
+(* FINDING (not repaired): an accepted, written, unacknowledged QoS 1 publish carrying topic alias 5 is lost
+   when the resumed session's CONNACK lowers topic-alias-maximum from 10 to 3: its retransmission is
+   refused (InvalidAlias 5 3), the request is consumed, and nothing holds it any more *)
+Theorem c02_alias_replay_loss_witness_v5 :
+  let p := mkPub5 Q1 0 1 1 (Some 5) in
+  let h := [Client.Loop5.Reconnect5 true None (Some 10); Client.Loop5.Yield5; Client.Loop5.UserSend5 (R5Publish p);
+            Client.Loop5.TakeRequest5; Client.Loop5.Yield5; Client.Loop5.Fail5;
+            Client.Loop5.Reconnect5 true None (Some 3); Client.Loop5.Yield5] in
+  forallb Client.LoopInv5.wf_user5 (h ++ [Client.Loop5.TakeRequest5]) = true /\
+  option_map (fun l => (Client.LoopInv5.owed5 l, Client.Loop5.chan5 l, Client.Loop5.wire5 l))
+    (Client.Loop5.lrun5 (Client.Loop5.linit5 2 false) (firstn 5 h))
+    = Some ([R5Publish (with_pkid5 p 1)], [], [P5Publish (with_pkid5 p 1)]) /\
+  option_map (fun l => (Client.LoopInv5.owed5 l, Client.Loop5.chan5 l)) (Client.Loop5.lrun5 (Client.Loop5.linit5 2 false) h)
+    = Some ([R5Publish (with_pkid5 p 1)], []) /\
+  (exists l l', Client.Loop5.lrun5 (Client.Loop5.linit5 2 false) h = Some l /\
+     Client.Loop5.lstep5 l Client.Loop5.TakeRequest5 = Client.Loop5.Failed5 l' (Client.Loop5.LE5State (E5InvalidAlias 5 3)) /\
+     Client.LoopInv5.owed5 l' = [] /\ Client.Loop5.chan5 l' = [] /\ Client.Loop5.connected5 l' = false).
+Proof. exact Client.LoopInv5.alias_lowered_replay_loses_publish5. Qed.
